@@ -1,19 +1,71 @@
 """
-rsexpr.py — a translator for a small, pure fragment of Rust into Lean 4 (engine E2).
+rsexpr.py — a translator for a small fragment of Rust into Lean 4 (engine E2).
 
-Accepted fragment (anything else makes the translator fail, which ./check treats as a broken
-obligation): a function whose body is a block of
-    let <ident | (a, b)> = <expr>;        if <expr> { return <expr>; }        return <expr>;
-followed by a final expression; expressions are built from identifiers, integer / bool literals,
-paths (`Orientation::Collinear`, `T::zero()`, `Zero::zero()`), field access, no-argument method
-calls (`self.min()`, treated like fields), calls of whitelisted functions, tuples, unary `!`, `-`,
-`*` (deref, ignored), `&` (ignored), binary `|| && == != < <= > >= + - * /`, parentheses,
-`if … { … } else if … { … } else { … }`, fixed-length array literals (→ tuples), constant indexing
-`e[0][1]` (resolved by the caller's substitution table, an unresolved index is an error), struct literals
-of whitelisted structs with all fields in declaration order (also through the `coord!` macro), and `T::from(x)?` with `x : T` (identity).
+Sound by construction: the translator succeeds only on source it understands; anything else raises `TranslateError`
+(./check treats that as a broken obligation), never a guess. Every *semantic choice* (what a library method means, how a
+machine type is modelled) is an explicit entry of the job's tables in rs2lean.py (`funcs`, `accessors`, `opts`) or one of
+the fixed rules listed under "Semantic choices" below.
 
-Numbers become `Rat`, comparisons `decide (…)`, so that the result is a computable Lean term which
-can be compared (`rfl` / `simp`) with the hand-written model.
+1. Expression fragment (class `Parser`, entry `translate`)
+   A function whose body is a block of
+       let <ident | (a, b)> = <expr>;        if <expr> { return <expr>; }        return <expr>;
+   followed by a final expression; expressions are built from identifiers, integer / bool literals, paths
+   (`Orientation::Collinear`, `T::zero()`), field access, no-argument method calls (`self.min()`: through the job's `accessors`
+   templates; for the older jobs without such a table they are kept like fields and resolved by the job's substitutions),
+   calls of whitelisted functions / methods (a whitelist entry is a Lean function name or a template `{0} {1} …` over receiver
+   and arguments; one method name on receivers of different static types is resolved by a list of (receiver pattern, template)),
+   tuples, unary `!`, `-`, `*` (deref, ignored), `&` (ignored), binary `|| && == != < <= > >= + - * / %`, parentheses,
+   `if … { … } else if … { … } else { … }`, `match e { P | Q => e, … }` with enum-path patterns and `_`,
+   pure closures `|a, &b| e` (→ `fun a b => e`, only as arguments of whitelisted methods such as `.any`, `.all`, `.fold`),
+   fixed-length array literals (→ tuples), constant indexing `e[0][1]` (resolved by the caller's substitution table, an
+   unresolved index is an error), struct literals of whitelisted structs with all fields in declaration order (also `coord!`
+   and the field-init shorthand `Self { exterior, interiors }`), `T::from(x)?` with `x : T` (identity), `unreachable!(…)`
+   (only with a value chosen by the job).
+
+2. Effect blocks (class `EffectParser`, entry `translate_effect_loop`): the body of one `for` loop whose effects are
+   `acc += 1`, `acc -= 1`, early `return X;` → `Option Int` (kept for `ringEdge`).
+
+3. Statement fragment (class `StmtParser`, entry `translate_fn`): whole functions with mutable state.
+   * State: `&mut` parameters (`is_inside: &mut bool`), `mut` by-value parameters, fields of `&mut self` declared as *places*
+     (`self.exterior` → one variable), and `let mut x = e;` locals (type from the job's `mut_types`, `Bool` for a bool literal).
+     Every mutable variable is a Lean `let`-bound name; assignment (`x = e`, `*x = e`, `x += e`, `-=`, `*=`, `/=`) is a shadowing
+     `let`. Shadowing a live mutable variable by `let` is rejected. A unit function returns `ret_ctor` applied to its `&mut`
+     parameters (`PosAcc.mk is_inside boundary_count`); with `ret_both` a function returns (state, value).
+   * Control: `return;` / `return e;` anywhere; `if` / `else if` / `else` and `match` (arms: block, `return`, assignment, value,
+     `unreachable!`) as statements. When a branch statement is followed by more code and more than one arm falls through (or
+     an arm binds a name that the following code mentions), the following code becomes a *join point*: a local function of the
+     live mutable variables (`let k := fun (m₁ : T₁) … => rest`), called from every arm that falls through; otherwise it is inlined.
+   * Loops: `for x in <list expr> { … }` over the live mutable variables σ: without a `return` in the body a `List.foldl`
+     (the accumulating loops of area.rs), with one `Gen.loop` (GeoModel/TRANPrelude.lean: each iteration yields `Step.next σ` or
+     `Step.ret r`, the latter leaves the function). `for x in &mut v { … }` where the body updates only `x` is `v := v.map …`.
+   * State-transforming calls `recv.m(args…, a, &mut b)` of a job-listed method (`calculate_coordinate_position`): the listed
+     Lean function applied to receiver, arguments and the constructor of the state, results projected back into the variables.
+     `X.push(e)` on a list variable is append; `X.m(..)` for a job-listed `mut_methods` entry is `X := m X ..`;
+     `f(&mut X)` / `let r = f(&mut X)` for a closure *parameter* `f` is a job-declared function old X ↦ (new X, result).
+   * Fixed arrays: a job-declared array (`self.to_lines()`, its elements read off the source by `array_literal`) under
+     `.map(|x| { …; value })` is unrolled element by element in order, assignments to captured mutable variables flowing from
+     one copy to the next; the result is known element by element: `a[0]`, `a.windows(k).all(|w| …)` / `.any` (unrolled),
+     `a.sort()` (the job names the sorting function for that length). Names bound inside an unrolled closure or an inlined
+     arm must not occur in the code after it (checked on the tokens; otherwise an error).
+   * List iterators: `let Some(x) = it.next() else { … };` = head of the list, `let Some(x) = it.find(|v| p) else { … };` =
+     head of `List.dropWhile (¬p)`; `it` continues behind the element taken; the else block must diverge.
+   * Skipped: `use …;` inside bodies.
+
+Semantic choices (fixed rules; everything else is in the job tables of rs2lean.py, each with a comment there)
+   * numbers are exact rationals (`Rat`; counters `Nat` / `Int` per job): no overflow, no rounding, no NaN — so
+     `a.partial_cmp(&b)` is never `None` (`Gen.partialCmp?`), comparisons become `decide (…)`, integer `/` and `%` are only
+     used on `Nat` counters; `as` casts are dropped (only between number types, in the older jobs).
+   * `Option::unwrap` is the total `Gen.unwrap` (default on `None`); panics are not modelled — the correspondence harness
+     runs every case under `catch_unwind` and reports `panic`.
+   * `debug_assert!(…)` needs the job option `debug_assert: "skip"` = release-build semantics (the harness is built with
+     `--release`); `debug_assert!(!X.is_empty())` additionally serves as the length guard for `X[0]` that follows it.
+   * `v[k]` on a `Vec` with a constant `k` is accepted only under a dominating guard (`v.len() == n` branch, early return on
+     `v.len() < n` / `v.is_empty()`, or the debug assertion above) and becomes `Gen.idx v k` whose default is unreachable.
+   * `unreachable!()` arms take the value chosen by the job (dead code for the types concerned).
+   * Rust identifiers that are reserved words of Lean get a trailing `_` (not field names after a `.`).
+
+Numbers become `Rat`, comparisons `decide (…)`, so that the result is a computable Lean term which can be compared
+(`rfl` / `simp`) with the hand-written model.
 """
 import re
 
@@ -81,13 +133,14 @@ class Parser:
         return self.peek()[1] == val and self.peek()[0] in ("op", "id")
 
     # ---- blocks and statements -> Lean term
-    def block(self):
+    def block(self, tail=False):
+        """`tail`: the block's value is the value of the enclosing function (or closure), so `return e` = the value `e`"""
         self.eat("op", "{")
-        term = self.stmts()
+        term = self.stmts(tail)
         self.eat("op", "}")
         return "(" + term + ")" if term.startswith("let ") or term.startswith("if ") else term
 
-    def stmts(self):
+    def stmts(self, tail=False):
         if self.at("let"):
             self.eat()
             if self.at("mut"):
@@ -108,8 +161,10 @@ class Parser:
             self.eat("op", "=")
             e = self.expr()
             self.eat("op", ";")
-            return "let %s := %s\n  %s" % (pat, e, self.stmts())
+            return "let %s := %s\n  %s" % (pat, e, self.stmts(tail))
         if self.at("return"):
+            if not tail:
+                raise TranslateError("`return` inside a nested block expression")
             self.eat()
             e = self.expr()
             if self.at(";"):
@@ -120,29 +175,29 @@ class Parser:
             save = self.i
             self.eat()
             c = self.expr()
-            body = self.block()
+            body = self.block(tail)
             if self.at("else"):
                 self.i = save
-                e = self.expr()
+                e = self.expr(tail)
                 return e
             if self.at("}"):
                 raise TranslateError("`if` without else as final expression")
-            rest = self.stmts()
+            rest = self.stmts(tail)
             return "if %s then %s else\n  %s" % (c, body, rest)
-        e = self.expr()
+        e = self.expr(tail)
         return e
 
     # ---- expressions
-    def expr(self):
+    def expr(self, tail=False):
         if self.at("if"):
             self.eat()
             c = self.expr()
-            a = self.block()
+            a = self.block(tail)
             self.eat("id", "else")
-            b = self.expr() if self.at("if") else self.block()
+            b = self.expr(tail) if self.at("if") else self.block(tail)
             return "(if %s then %s else %s)" % (c, a, b)
         if self.at("match"):
-            return self.match_expr()
+            return self.match_expr(tail)
         return self.binary(0)
 
     def pattern(self):
@@ -177,7 +232,7 @@ class Parser:
             raise TranslateError("unreachable!() without a value chosen by the job")
         return self.opts["unreachable"]
 
-    def match_expr(self):
+    def match_expr(self, tail=False):
         """`match e { P | Q => expr, … }` with enum-path patterns and pure arms"""
         self.eat("id", "match")
         scrut = self.expr()
@@ -189,7 +244,7 @@ class Parser:
             if self.at("unreachable"):
                 body = self.unreachable()
             elif self.at("{"):
-                body = self.block()
+                body = self.block(tail)
             else:
                 body = self.expr()
             if self.at(","):
@@ -214,7 +269,7 @@ class Parser:
         if not params:
             raise TranslateError("closure without parameters")
         self.bound.update(params)
-        body = self.expr()
+        body = self.expr(True)        # `return e` inside a closure body = the closure's value
         return "(fun %s => %s)" % (" ".join(params), body)
 
     LEVELS = [["||"], ["&&"], ["==", "!=", "<", "<=", ">", ">="], ["+", "-"], ["*", "/", "%"]]
@@ -487,7 +542,7 @@ def fn_body(src, header_regex):
 def translate(src, header_regex, paths, funcs, subst, structs=None, resub=()):
     body = fn_body(src, header_regex)
     p = Parser(tokenize(body), paths, funcs, structs)
-    term = p.block()
+    term = p.block(True)
     if term.startswith("(let ") or term.startswith("(if "):
         term = term[1:-1]
     if p.peek()[0] != "eof":
@@ -828,6 +883,7 @@ class StmtParser(Parser):
             self.eat("op", ";")
             spec = self.opts["fn_params"][f]
             r = self.gensym("r")
+            self.forget_len(x)
             return "let %s := (%s %s)\nlet %s := %s\n%s" % (r, f, x, x, spec["state"].format(r=r, x=x), self.sstmts(env))
         if not (self.peek()[0] == "id" and self.peek()[1] in env.names() and self.peek(1) == ("op", ".")
                 and self.peek(2)[0] == "id" and self.peek(3) == ("op", "(")):
@@ -844,8 +900,14 @@ class StmtParser(Parser):
             self.eat()
         args = self.args()
         self.end_of_stmt()
+        self.forget_len(x)
         val = fn.format(x, *args) if "{" in fn else "(%s %s)" % (fn, " ".join([x] + args))
         return "let %s := (%s)\n%s" % (x, val, self.sstmts(env))
+
+    def forget_len(self, x):
+        """a mutable variable was updated: length guards that mention it no longer hold"""
+        pat = re.compile(r"(?<![A-Za-z_0-9.])" + re.escape(x) + r"(?![A-Za-z_0-9])")
+        self.minlen = {k: v for k, v in self.minlen.items() if not pat.search(k)}
 
     def try_assign(self, env):
         """`[*]x = e`, `[*]x += e` (also - * /) on a live mutable variable"""
@@ -859,10 +921,14 @@ class StmtParser(Parser):
         nxt2 = self.t[j + 2] if j + 2 < len(self.t) else ("eof", "")
         if nxt == ("op", "="):
             self.i = j + 2
-            return tk[1], self.expr()
+            e = self.expr()
+            self.forget_len(tk[1])
+            return tk[1], e
         if nxt[0] == "op" and nxt[1] in "+-*/" and nxt2 == ("op", "="):
             self.i = j + 3
-            return tk[1], "(%s %s %s)" % (tk[1], nxt[1], self.expr())
+            e = self.expr()
+            self.forget_len(tk[1])
+            return tk[1], "(%s %s %s)" % (tk[1], nxt[1], e)
         return None
 
     def let_stmt(self, env):
